@@ -26,9 +26,11 @@ type c07Req struct {
 // a corpus mixing transports, valid and invalid documents, operation names and Accept headers
 var c07Corpus = []c07Req{
 	{0, 0, 0, 0}, {0, 1, 2, 0}, {0, 5, 1, 0}, {0, 7, 3, 0}, {1, 0, 1, 0}, {1, 2, 2, 0}, {1, 4, 0, 0}, {1, 8, 4, 0},
-	{1, 1, 6, 0}, {2, 0, 2, 0}, {2, 7, 1, 0}, {3, 0, 5, 0}, {3, 11, 0, 0}, {1, 9, 1, 0}, {0, 10, 2, 0},
+	{1, 1, 6, 0}, {2, 0, 2, 0}, {2, 7, 1, 0}, {3, 0, 5, 0}, {3, 15, 0, 0}, {1, 9, 1, 0}, {0, 10, 2, 0},
 	// automatic persisted queries: a registration, and a text sent with another text's hash (must be refused, registered or not)
 	{1, 0, 1, 1}, {1, 5, 1, 2}, {1, 2, 0, 2},
+	// texts that differ only inside a string literal / in where a comment ends (they must not share a cache slot)
+	{1, 11, 0, 0}, {1, 12, 0, 0}, {0, 12, 1, 0}, {1, 13, 0, 0}, {2, 14, 0, 0},
 }
 
 func c07Build(q c07Req) *http.Request {
@@ -76,7 +78,7 @@ func c07Render(w *hWriter, es *hES) string {
 		hs = append(hs, k+"="+strings.Join(v, ","))
 	}
 	sort.Strings(hs)
-	return strings.Join(hs, ";") + " | " + strings.Join(es.execs, ",") + " | " + w.body.String()
+	return strings.Join(hs, ";") + " | " + strings.Join(es.execs, ",") + strings.Join(es.shapes, ",") + " | " + w.body.String()
 }
 
 // Harness_C07_serverHistory: the status, headers, body and executed
@@ -110,7 +112,7 @@ func Harness_C07_serverHistory() {
 	es := &hES{}
 	srv := mkServer(es)
 	srv.ServeHTTP(newHWriter(), c07Build(first))
-	es.execs = nil
+	es.execs, es.shapes = nil, nil
 	w := newHWriter()
 	srv.ServeHTTP(w, c07Build(second))
 
